@@ -31,6 +31,21 @@ def _is_stamped(t, path=None):
     return False
 
 
+def _escapes(ref, t):
+    """does the reference `ref` itself (through reborrows, casts, transmutes, aggregates - not as an argument consumed by another
+    call such as mem::take) occur in term t?"""
+    t = strip(t)
+    if t == ref:
+        return True
+    if not isinstance(t, tuple) or not t:
+        return False
+    if t[0] == "call":
+        if "transmute" in t[1] or norm(t[1]).endswith(("::cast", "::as_mut", "::as_ref", "::from_mut")):
+            return any(_escapes(ref, a) for a in t[2])
+        return False
+    return any(_escapes(ref, x) for x in t[1:] if isinstance(x, tuple))
+
+
 def rule_link_stamp(ctx):
     r = RuleResult("LINK-STAMP", ["C02", "C08"],
                    "every value written into a shared AtomicRc.link passes through with_timestamp (stamps iff non-null)")
@@ -49,6 +64,19 @@ def rule_link_stamp(ctx):
                     continue
                 op = e.ntarget[len("atomic::Atomic::"):]
                 if link_side(prog, b, e.args[0]) != "strong" and op != "new":
+                    continue
+                if op == "get_mut":
+                    # exclusive access to the link's storage: used to take the content out (take, Drop) - never handed to the
+                    # caller, who could then write a pointer into the link without its stamp (the authors' own note on why
+                    # AtomicRc has no get_mut)
+                    leaked = p.ret is not None and _escapes(e.result, p.ret)
+                    stored = [q for q in p.events if q.kind == "store" and _escapes(e.result, q.value)]
+                    okg = not leaked and not stored
+                    r.instance("%s: the exclusive reference to the link's storage stays inside" % name.split("::")[-1], okg)
+                    if not okg:
+                        r.violate(name, "alias:get_mut", "hands out a mutable reference to the storage of the strong link: safe code "
+                                  "can then write a pointer into the link without with_timestamp() (and read one out without "
+                                  "taking it)", e.loc())
                     continue
                 written = None
                 if op in ("swap", "store"):
